@@ -3,9 +3,11 @@ import HsVerif.Props.C03
 /-! C07 — views and certified state only move forward, and only on evidence.  Property theorems only.
 
 Proved here for the replica model and EVERY sequence of delivered events: the view starts at 1,
-changes only by +1, each change is recorded (`GRec.adv v cert timeout`, appended in the same
-`modify` that increments the view, immediately followed by `AddEvent(ViewChangeEvent{v+1})`) and is
-backed by a certificate of view `cert ≥ v` that passed the replica's verifier; by C02 such a
+changes only upwards, from `v` to `cert + 1` for a certificate of view `cert ≥ v` that passed the
+replica's verifier (`EnterViewAfter(cert)`: the replica enters the view AFTER THE CERTIFICATE, which may
+be many views ahead of `v + 1` when the replica had fallen behind); each change is recorded
+(`GRec.adv v cert timeout`, appended in the same `modify` that sets the view, immediately followed by
+`AddEvent(ViewChangeEvent{cert+1})`); by C02 such a
 certificate carries a quorum of distinct genuine signatures (over a block of that view, or over
 timeouts for that view).
 
@@ -46,13 +48,40 @@ theorem reachable_ia (k : Keys) (c : RCfg) (es : List Ev) :
 /-- the advancement records of a history -/
 def advances (g : List GRec) : List GRec := g.filter GRec.isAdv
 
-/-- **The view changes only from v to v+1, never skipping**: after any event sequence the
-advancement records are exactly "left view 1", "left view 2", …, "left view (current − 1)". -/
+/-- **The view changes only from `v` to `cert + 1` with `cert ≥ v`, and every change is recorded**
+(RESTATED for `EnterViewAfter`; the name is historical: the old model moved by exactly one view, the
+records being "left view 1", "left view 2", …).  After any event sequence the advancement records form a
+chain from view 1 to the current view: the views that were left, followed by the current view, are
+exactly view 1 followed by the views that were entered (certified view + 1); every record left a view at
+most its certified view, so each step of the chain goes strictly up. -/
 theorem view_advances_by_one (k : Keys) (c : RCfg) (es : List Ev) :
     let s := runEvents k c (start k c {}).1 es
-    1 ≤ s.view ∧ (advances s.ghost).map GRec.advFrom = List.range' 1 (s.view - 1) := by
-  obtain ⟨h1, h2, _⟩ := reachable_ia k c es
-  exact ⟨h1, h2⟩
+    1 ≤ s.view ∧
+    (advances s.ghost).map GRec.advFrom ++ [s.view] = 1 :: (advances s.ghost).map GRec.advTo ∧
+    ∀ r ∈ advances s.ghost, r.advFrom < r.advTo := by
+  obtain ⟨h1, h2, h3⟩ := reachable_ia k c es
+  refine ⟨h1, h2, ?_⟩
+  intro r hr
+  have hadv : r.isAdv = true := (List.mem_filter.mp hr).2
+  cases r with
+  | adv f cv t =>
+    have := (h3 f cv t hr).1
+    simp only [GRec.advFrom, GRec.advTo]; omega
+  | _ => simp [GRec.isAdv] at hadv
+
+/-- **The view never decreases and leaves `v` only for the view after a certificate of a view `≥ v`**,
+read off the chain: the last advancement record, if any, entered the current view. -/
+theorem current_view_is_last_entered (k : Keys) (c : RCfg) (es : List Ev) :
+    let s := runEvents k c (start k c {}).1 es
+    s.view = ((advances s.ghost).map GRec.advTo).getLast?.getD 1 := by
+  intro s
+  have h2 := (view_advances_by_one k c es).2.1
+  have := congrArg List.getLast? h2
+  rw [List.getLast?_append] at this
+  simp only [List.getLast?_singleton, Option.some_or] at this
+  rw [List.getLast?_cons] at this
+  simp only [Option.some.injEq] at this
+  exact this
 
 /-- **Only on evidence**: every time the replica left a view `v` it held a certificate (QC, TC or
 aggregate QC) for a view `cert ≥ v` that its verifier accepted. -/
@@ -94,10 +123,11 @@ theorem evidence_is_quorum (k : Keys) (c : RCfg) (cert : Nat) (h : Evidence k c 
     exact ⟨a, sg, S, rfl, hn, by rw [hl]; exact hq, hall⟩
 
 /-! Signalling ("never skips signalling a view change to its own components"): in `advanceView`
-the view increment, its ghost record and `AddEvent(ViewChangeEvent{v+1})` are three adjacent lines
-with no exit between them, and the record exists for every increment (`view_advances_by_one`).
+the view assignment, its ghost record and `AddEvent(ViewChangeEvent{cert+1})` are three adjacent lines
+with no exit between them, and the record exists for every change of the view (`view_advances_by_one`).
 That the queued event is dispatched exactly once is C14.  On the implementation the oracle
-compares, for every delivered message, the list of ViewChangeEvents handled with the view delta. -/
+compares, for every delivered message, the list of ViewChangeEvents handled with the views entered
+(strictly increasing, above the old view, ending at the new view). -/
 
 end HsVerif.Props.C07
 
